@@ -120,7 +120,7 @@ fn emit_dets(ctx: &mut Ctx, id: &str, su: &pt::SourceUnit, filter: &[String]) {
         if !filter.is_empty() && !filter.iter().any(|f| name.contains(f.as_str())) {
             continue;
         }
-        let r = real::run_detector(d, su);
+        let r = real::run_detector(&d, su);
         if r.is_none() {
             ctx.count("impl_panics", 1);
         } else if !r.as_ref().unwrap().is_empty() {
@@ -240,6 +240,41 @@ pub fn hostile_files(rng: &mut Rng) -> Vec<(String, String)> {
         add(&format!("gen:{}", seed), gen::random_file(seed, cfg));
     }
     v
+}
+
+// ------------------------------------------------------------------------------------------ C10
+/// Every sequence (length 2..=4, thorough 5) over seven member types of distinct sizes, once as the state
+/// variables of a contract and once as the members of a struct: the real packing detectors on the real parse.
+pub fn pack_requests(ctx: &mut Ctx) {
+    let tys = ["bool", "uint16", "uint96", "uint128", "address", "uint248", "uint256"];
+    let maxlen = if ctx.thorough { 5 } else { 4 };
+    let mut seqs: Vec<Vec<usize>> = vec![];
+    let mut frontier: Vec<Vec<usize>> = vec![vec![]];
+    for len in 1..=maxlen {
+        let mut next = vec![];
+        for s in &frontier {
+            for t in 0..tys.len() {
+                let mut u = s.clone();
+                u.push(t);
+                next.push(u);
+            }
+        }
+        if len >= 2 {
+            seqs.extend(next.iter().cloned());
+        }
+        frontier = next;
+    }
+    ctx.count("pack_exhaustive_layouts", seqs.len() as u64);
+    let filter = vec!["pack_".to_string()];
+    for (k, s) in seqs.iter().enumerate() {
+        let members: String = s.iter().enumerate().map(|(i, t)| format!("  {} m{};\n", tys[*t], i)).collect();
+        let fields: String = s.iter().enumerate().map(|(i, t)| format!("    {} f{};\n", tys[*t], i)).collect();
+        let src = format!("pragma solidity 0.8.17;\ncontract C {{\n{}  struct S {{\n{}  }}\n}}\n", members, fields);
+        let id = format!("pack{}", k);
+        if let Some(su) = emit_file(ctx, &id, &src, 0) {
+            emit_dets(ctx, &id, &su, &filter);
+        }
+    }
 }
 
 // ------------------------------------------------------------------------------------------ C17
@@ -367,8 +402,8 @@ pub fn relayout_requests(ctx: &mut Ctx, rng: &mut Rng) {
                         ctx.count("restring_files", 1);
                         ctx.count("restring_literals", nlit as u64);
                         for (dname, d) in real::detectors() {
-                            let r1 = real::run_detector(d, &su1);
-                            let r3 = real::run_detector(d, &su3);
+                            let r1 = real::run_detector(&d, &su1);
+                            let r3 = real::run_detector(&d, &su3);
                             ctx.line(&["STRLIT", &id1, &id3, dname, &real::fmt_locs(&r1), &real::fmt_locs(&r3)]);
                         }
                     }
@@ -396,8 +431,8 @@ pub fn relayout_requests(ctx: &mut Ctx, rng: &mut Rng) {
             let tm: Vec<String> = toks1.iter().zip(toks2.iter()).map(|(a, b)| format!("{}:{}>{}:{}", a.0, a.1, b.0, b.1)).collect();
             ctx.line(&["TOKMAP", &id1, &id2, &tm.join(";")]);
             for (dname, d) in real::detectors() {
-                let r1 = real::run_detector(d, &su1);
-                let r2 = real::run_detector(d, &su2);
+                let r1 = real::run_detector(&d, &su1);
+                let r2 = real::run_detector(&d, &su2);
                 ctx.line(&["RELAY", &id1, &id2, dname, &real::fmt_locs(&r1), &real::fmt_locs(&r2)]);
             }
             // the reported lines of the re-laid-out file (C02 oracle applies to them as to any file)
@@ -477,8 +512,8 @@ pub fn compose_requests(ctx: &mut Ctx, rng: &mut Rng) {
             continue;
         }
         for (dname, d) in real::detectors() {
-            let rw = real::run_detector(d, &su);
-            let rp: Vec<String> = part_sus.iter().map(|p| real::fmt_locs(&real::run_detector(d, p))).collect();
+            let rw = real::run_detector(&d, &su);
+            let rp: Vec<String> = part_sus.iter().map(|p| real::fmt_locs(&real::run_detector(&d, p))).collect();
             ctx.line(&["COMPOSE", &idw, &part_ids.join(","), dname, &real::fmt_locs(&rw), &rp.join("|")]);
         }
     }
@@ -501,7 +536,7 @@ pub fn replay(ctx: &mut Ctx, path: &str) {
             }
             "DET" => {
                 if let (Some((_, su)), Some((_, d))) = (files.get(f[1]), real::detectors().into_iter().find(|d| d.0 == f[2])) {
-                    let r = real::run_detector(d, su);
+                    let r = real::run_detector(&d, su);
                     ctx.line(&["DET", f[1], f[2], &real::fmt_locs(&r)]);
                 }
             }
@@ -520,8 +555,8 @@ pub fn replay(ctx: &mut Ctx, path: &str) {
             }
             "SLOTS" => {
                 let v: Vec<u16> = f[1].split(',').filter(|x| !x.is_empty()).map(|x| x.parse().unwrap()).collect();
-                let r = catch_unwind(AssertUnwindSafe(move || solstat::analyzer::utils::storage_slots_used(v)));
-                ctx.line(&["SLOTS", f[1], &r.map(|v| v.to_string()).unwrap_or_else(|_| "PANIC".into())]);
+                let r = catch_unwind(AssertUnwindSafe(move || real::call_slots(solstat::analyzer::utils::storage_slots_used, v)));
+                ctx.line(&["SLOTS", f[1], &r.unwrap_or_else(|_| "PANIC".into())]);
             }
             "VER" => {
                 let v = String::from_utf8(unhex(f[1])).unwrap();
